@@ -37,7 +37,7 @@ if valid:
     try:
         for c in checks:
             t = time.time()
-            rc, out = sh(f"cd {V} && bin/check {c}")
+            rc, out = sh(f"cd {V} && VERIF_EVIDENCE_DIR=/verif/build/scratch_evidence bin/check {c}")
             lines = [l for l in out.split("\n") if l.startswith("VIOLATION") or l.startswith("[")]
             res[c] = {"exit": rc, "wall_s": round(time.time() - t, 1), "lines": [l[:300] for l in lines[:6]]}
             print(c, "exit", rc, *[l[:230] for l in lines[:3]], sep="\n   ")
